@@ -4,8 +4,9 @@ func init() { register("C18", checkC18) }
 
 func checkC18(p *Program, tier string) *Result {
 	r := newResult("C18")
-	r.Explanation = "R-TAINT: forward taint over the SSA of every function of the server universe (global fixpoint, one summary per function, decode trampolines devirtualised); on the inlined views every caller of a folded helper analyses its own copy of it. Sources: values of the password-bearing field types (AuthenData, AuthenUserMessage), whole AuthenStart/AuthenContinue bodies, the connection wrapper's secret, keychain results, config.Keychain/SecretConfig values; errors and strings built from them. Sinks: every argument of every logger/log/fmt print call outside the reference logger itself; Record(ctx, m, obscure...) — every password-bearing key of m's Fields() provenance must be among the constant obscure arguments of the same call; Set/RecordCtx key lists must not select a password-bearing key (user-msg only in a state entered with a GETUSER reply); reply ServerMsg/Data/Args setters. Declassifiers: len, comparisons, bcrypt verification."
+	r.Explanation = "R-REPLYWRITER: the writers registered with Response.Reply (the packet logger, which decodes and records every field unobscured) are called by the library reply loop only - never directly with bytes of a request. R-TAINT: forward taint over the SSA of every function of the server universe (global fixpoint, one summary per function, decode trampolines devirtualised); on the inlined views every caller of a folded helper analyses its own copy of it. Sources: values of the password-bearing field types (AuthenData, AuthenUserMessage), whole AuthenStart/AuthenContinue bodies, the connection wrapper's secret, keychain results, config.Keychain/SecretConfig values; errors and strings built from them. Sinks: every argument of every logger/log/fmt print call outside the reference logger itself; Record(ctx, m, obscure...) — every password-bearing key of m's Fields() provenance must be among the constant obscure arguments of the same call; Set/RecordCtx key lists must not select a password-bearing key (user-msg only in a state entered with a GETUSER reply); reply ServerMsg/Data/Args setters. Declassifiers: len, comparisons, bcrypt verification."
 	ruleTaint(p, r)
+	ruleReplyWriter(p, r)
 	ruleObscure(p, r)
 	r.Trusted = append(r.Trusted, "the secret-bearing field table (RFC 8907 §5.4.2: password in START data or CONTINUE user_msg/data)", "library functions propagate taint from any argument to their data-carrying results; bool and numeric results carry none")
 	r.Assumptions = append(r.Assumptions, "what an injected logger does with the arguments it is given is out of scope", "secrets a client puts into non-secret fields (user name) are not tracked", "taint is not tracked through fields of heap objects (the user name kept in the ASCII handler is legitimately derived from user_msg)")
